@@ -12,7 +12,17 @@ usage: tools/eval_seeded.py <agent-out-dir> <K> <seed-id> <property> [extra prop
 import json, os, shutil, subprocess, sys, tempfile, time
 
 ROOT = os.path.dirname(os.path.dirname(os.path.abspath(__file__)))
-src_dir, K, sid, prop, *extra = sys.argv[1:]
+if sys.argv[1] == "--from-seeded":
+    # re-evaluate a kept seeded change from /verif/seeded/<id>/ (patch.diff, demo.py, notes.md; property from meta.json)
+    sid = sys.argv[2]
+    _d = os.path.join(ROOT, "seeded", sid)
+    _stage = tempfile.mkdtemp(prefix="tjd-stage-", dir="/var/tmp")
+    for a, b in (("patch.diff", "patch0.diff"), ("demo.py", "demo0.py"), ("notes.md", "notes0.md")):
+        shutil.copy(os.path.join(_d, a), os.path.join(_stage, b))
+    prop = json.load(open(os.path.join(_d, "meta.json")))["property"]
+    src_dir, K, extra = _stage, "0", sys.argv[3:]
+else:
+    src_dir, K, sid, prop, *extra = sys.argv[1:]
 tmp = tempfile.mkdtemp(prefix="tjd-seed-", dir="/var/tmp")
 wt = os.path.join(tmp, "wt")
 def run(cmd, **kw):
